@@ -400,4 +400,83 @@ CASES = [
     {
       std::this_thread::sleep_for(std::chrono::nanoseconds{100});
     }""", """    (void)this->log_statement<false, false>(LogLevel::None, &macro_metadata, max_capacity);""")]),
+
+ # ---------------- C07
+ dict(name="c07-exit-ignores-transit-buffers", ids=["C07"], rule="C07.R1d", subs=[(BW, """      all_empty &= thread_context->_transit_event_buffer->empty();
+    }
+
+    return all_empty;""", """    }
+
+    return all_empty;""")]),
+ dict(name="c07-exit-break-early", ids=["C07"], rule="C07.R1a", subs=[(BW, """      uint64_t const cached_transit_events_count = _populate_transit_events_from_frontend_queues();
+      if (cached_transit_events_count > 0)
+      {""", """      uint64_t const cached_transit_events_count = _populate_transit_events_from_frontend_queues();
+      if (cached_transit_events_count == 0) { break; }
+      if (cached_transit_events_count > 0)
+      {""")]),
+ dict(name="c07-exit-no-final-flush", ids=["C07"], rule="C07.R1b", subs=[(BW, """        _flush_and_run_active_sinks(false, std::chrono::milliseconds{0});
+        break;""", """        break;""")]),
+ dict(name="c07-atexit-dropped", ids=["C07"], rule="C07.R3", subs=[("Backend.h", """                     sigprocmask(SIG_SETMASK, &oldset, nullptr);
+#endif
+
+                     // Set up an exit handler to call stop when the main application exits.
+                     // always call stop on destruction to log everything. std::atexit seems to be
+                     // working better with dll on windows compared to using ~LogManagerSingleton().
+                     std::atexit([]() { detail::BackendManager::instance().stop_backend_thread(); });""", """                     sigprocmask(SIG_SETMASK, &oldset, nullptr);
+#endif
+""")]),
+ dict(name="c07-raise-before-flush", ids=["C07"], rule="C07.R4a", subs=[("backend/SignalHandler.h", """        logger->flush_log(0);
+
+        // Reset to the default signal handler and re-raise the signal
+        std::signal(signal_number, SIG_DFL);
+        std::raise(signal_number);""", """        std::signal(signal_number, SIG_DFL);
+        std::raise(signal_number);
+        logger->flush_log(0);""")]),
+ dict(name="c07-sig_dfl-not-restored", ids=["C07"], rule="C07.R4f", subs=[("backend/SignalHandler.h", """        logger->flush_log(0);
+
+        // Reset to the default signal handler and re-raise the signal
+        std::signal(signal_number, SIG_DFL);
+        std::raise(signal_number);""", """        logger->flush_log(0);
+
+        std::raise(signal_number);""")]),
+ dict(name="c07-sigint-reraises", ids=["C07"], rule="C07.R4", subs=[("backend/SignalHandler.h", """      if (signal_number == SIGINT || signal_number == SIGTERM)
+      {
+        // For SIGINT and SIGTERM, we are shutting down gracefully""", """      if (signal_number == SIGTERM)
+      {
+        // For SIGINT and SIGTERM, we are shutting down gracefully""")]),
+ dict(name="c07-stop-join-before-notify", ids=["C07"], rule="C07.R2d", subs=[(BW, """    // signal wake up the backend worker thread
+    notify();
+
+    // Wait the backend thread to join, if backend thread was never started it won't be joinable
+    if (_worker_thread.joinable())
+    {
+      _worker_thread.join();
+    }
+""", """    // Wait the backend thread to join, if backend thread was never started it won't be joinable
+    if (_worker_thread.joinable())
+    {
+      _worker_thread.join();
+    }
+    // signal wake up the backend worker thread
+    notify();
+""")]),
+ dict(name="c07-once-flag-not-renewed", ids=["C07"], rule="C07.R2f", subs=[("backend/BackendManager.h", """    auto* new_flag = new std::once_flag();
+    std::once_flag* old_flag = _start_once_flag.exchange(new_flag);
+    delete old_flag;""", """    if (!_backend_worker.is_running()) { return; }
+    auto* new_flag = new std::once_flag();
+    std::once_flag* old_flag = _start_once_flag.exchange(new_flag);
+    delete old_flag;""")]),
+ dict(name="c07-exit-drain-skipped-on-affinity-error", ids=["C07"], rule="C07.R2a", subs=[(BW, """        QUILL_CATCH(std::exception const& e) { _options.error_notifier(e.what()); }
+        QUILL_CATCH_ALL() { _options.error_notifier(std::string{"Caught unhandled exception."}); }
+#endif
+
+        // All okay, set the backend worker thread running flag""", """        QUILL_CATCH(std::exception const& e) { _options.error_notifier(e.what()); }
+        QUILL_CATCH_ALL() { _options.error_notifier(std::string{"Caught unhandled exception."}); }
+#endif
+        if (_options.thread_name.empty()) { _is_worker_running.store(true); return; }
+
+        // All okay, set the backend worker thread running flag""")]),
+ dict(name="c07-mask-not-restored", ids=["C07"], rule="C07.R5", subs=[("Backend.h", "                     sigprocmask(SIG_SETMASK, &oldset, nullptr);\n", "")]),
+ dict(name="c07-default-signals-miss-sigill", ids=["C07"], rule="C07.R4j", subs=[("backend/SignalHandler.h", "std::vector<int> catchable_signals{SIGTERM, SIGINT, SIGABRT, SIGFPE, SIGILL, SIGSEGV};", "std::vector<int> catchable_signals{SIGTERM, SIGINT, SIGABRT, SIGFPE, SIGSEGV};")]),
+ dict(name="c07-alarm-after-logging", ids=["C07"], rule="C07.R4g", subs=[("backend/SignalHandler.h", "  alarm(SignalHandlerContext::instance().signal_handler_timeout_seconds.load());\n#endif", "#endif"), ("backend/SignalHandler.h", "      if (should_reraise_signal)\n      {\n        QUILL_SIGNAL_HANDLER_LOG", "      alarm(SignalHandlerContext::instance().signal_handler_timeout_seconds.load());\n      if (should_reraise_signal)\n      {\n        QUILL_SIGNAL_HANDLER_LOG")]),
 ]
